@@ -193,8 +193,11 @@ CLAIMED = {
         "exactly the members of the abstract round, hence along the fair rounds of the full model the pods converge within mu rounds as long as every round "
         "starts from a regular world — of which only the revision-phase part (rev_quiet) is assumed per round, the rest is preserved by the rounds (KeepsSet.v: a reconcile writes the set's status only) — (non-vacuity: a concrete 8-world chain, RoundExample.v); QUIET (QuietProofs.v) — in a world satisfying the decidable "
         "condition quietb a fault-free reconcile succeeds, leaves the API state unchanged and logs list/get calls only. "
-        "From hypotheses on the initial world only when the revision list is within revisionHistoryLimit (C02_full_model_converges_closed, RoundRevs.v). "
-        "PARTIAL: the case of a longer revision list (truncation in mid-rollout; rev_quiet is then a per-round hypothesis), and that a fair history ends in a quietb world, are evaluated inside coqc (round_check "
+        "From hypotheses on the initial world only when the revision list is within revisionHistoryLimit (C02_full_model_converges_closed, RoundRevs.v), and from "
+        "the round after convergence on every world satisfies quietb, i.e. no write at all (C02_full_model_converges_and_goes_quiet: the whole property over the "
+        "full model, within mu+1 fair rounds of a regular initial world). "
+        "PARTIAL: the phase before regularity (chaotic prefix: faults, lagging caches, adoption, creation of the update revision, unsettled pods), revision lists "
+        "longer than the limit, and (as a cross-check of the hypotheses on observed worlds) that a fair history ends in a quietb world, are evaluated inside coqc (round_check "
         "on worlds observed at round boundaries of histories and on synthetic settled worlds; quietb on the final world of every history), not proved. Both are "
         "decided on the implementation on every generated history (chaotic prefix of reconciles, kubelet events, partial cache refreshes, faults, edits that stop; "
         "fair suffix): converged, status = census, last two reconciles write nothing. The environment model (Env.v) is compared with the real world after every op inside coqc.",
